@@ -111,8 +111,37 @@ JudgeRemoveEmpty(r) ==
             Verdict(r.id, "REJECT", "InputModified", 0, nontriv, in # out, "")
        ELSE Verdict(r.id, "ACCEPT", "", 0, nontriv, in # out, "")
 
+(* ---- resolve_syntatic_sugar : C06 ---- *)
+JudgeSugar(r) ==
+    IF r.exc # "" THEN Verdict(r.id, "REJECT", "Total", 0, TRUE, FALSE, r.exc)
+    ELSE
+    LET in == r.in  out == r.out
+        refs == RefVals(in)
+        usable == {d \in 1..NData : Usable(refs[d])}
+        nontriv == HasKind(in, {"comp"}) /\ \E d \in usable : NonEmpty(refs[d])
+    IN IF HasKind(out, {"comp"}) THEN Verdict(r.id, "REJECT", "NotLowered", 0, nontriv, in # out, "")
+       ELSE IF ~WellFormed(out) THEN Verdict(r.id, "REJECT", "WellFormed", 0, nontriv, in # out, "")
+       ELSE IF ~(FVars(out) \subseteq FVars(in)) THEN Verdict(r.id, "REJECT", "Scoped", 0, nontriv, in # out, "")
+       ELSE IF \E d \in usable : EvalOn(out, d) # refs[d] THEN
+            Verdict(r.id, "REJECT", "Preserve",
+                    CHOOSE d \in usable : EvalOn(out, d) # refs[d], nontriv, in # out, "")
+       ELSE Verdict(r.id, "ACCEPT", IF usable = {} THEN "structure-only" ELSE "", 0, nontriv, in # out, "")
+
+(* constructor record: [id, pass = "ctor", sig, shape, out (the dict term or absent), exc] *)
+JudgeCtor(r) ==
+    IF CtorMalformed(r.sig, r.shape) THEN
+        IF r.exc = "ValueError" THEN Verdict(r.id, "ACCEPT", "malformed-refused", 0, TRUE, FALSE, "")
+        ELSE Verdict(r.id, "REJECT", "MalformedNotRefused", 0, TRUE, FALSE, r.exc)
+    ELSE IF CtorOmitsRequired(r.sig, r.shape) THEN
+        Verdict(r.id, "ACCEPT", "unconstrained", 0, FALSE, FALSE, r.exc)
+    ELSE IF r.exc # "" THEN Verdict(r.id, "REJECT", "Total", 0, TRUE, FALSE, r.exc)
+    ELSE IF ~CtorDictOK(r.sig, r.shape, r.out) THEN Verdict(r.id, "REJECT", "FieldBinding", 0, TRUE, TRUE, "")
+    ELSE Verdict(r.id, "ACCEPT", "", 0, TRUE, TRUE, "")
+
 Judge(r) ==
     CASE r.pass = "simplify" -> JudgeSimplify(r)
+      [] r.pass = "sugar" -> JudgeSugar(r)
+      [] r.pass = "ctor" -> JudgeCtor(r)
       [] r.pass = "tofunc" -> JudgeToFunc(r)
       [] r.pass = "aggregate" -> JudgeAggregate(r)
       [] r.pass = "extract_md" -> JudgeExtract(r)
